@@ -439,6 +439,7 @@ func TestVerifC13Filters(t *testing.T) {
 
 		f := kind.CreateInstance(spec)
 		if p, txt, site, _ := vfRecoverRoot(func() { f.Init() }); p {
+			vfCloseQuietly(vf, "filter after a failed Init kind="+kindName, func() { f.Close() }) // what Init created before the panic
 			vf.Case(len(g.present) > 0, "init|"+kindName+"|"+strings.Join(g.Present(), ",")+"|"+strings.Join(g.Bounds(), ","), nil)
 			fail("Init", txt, site, "")
 			return
@@ -446,7 +447,7 @@ func TestVerifC13Filters(t *testing.T) {
 		closed := false
 		defer func() {
 			if !closed {
-				vfRecover(func() { f.Close() })
+				vfCloseQuietly(vf, "filter of an abandoned case kind="+kindName, func() { f.Close() })
 			}
 		}()
 
@@ -511,6 +512,7 @@ func TestVerifC13Filters(t *testing.T) {
 				}
 				nf := kind.CreateInstance(spec2)
 				if p, txt, site, _ := vfRecoverRoot(func() { nf.Inherit(cur) }); p {
+					vfCloseQuietly(vf, "filter after a failed Inherit kind="+kindName, func() { nf.Close() })
 					fail("Inherit", txt, site, "")
 					return
 				}
